@@ -37,6 +37,7 @@ func init() {
 	families["group10"] = famGroup10
 	families["group11"] = famGroup11
 	families["pg"] = famPG
+	families["ctx"] = famCtx
 }
 
 func mustDoc(text string, useNumber bool) any {
@@ -907,5 +908,80 @@ func famPG(g *gen, e *emitter, n int) {
 	}
 	if count < 500 {
 		fmt.Fprintf(os.Stderr, "pg family: only %d cases extracted from pg_test.go\n", count)
+	}
+}
+
+// ---- ctx: context-restoration probes (C09, also C08/C10/C11): after a nested construct the outer
+// binding (@, last, $, the structural-error flag, the verbose flag) is used again ----
+func famCtx(g *gen, e *emitter, n int) {
+	innerFilters := []string{"@.a ? (@ > 5)", "@.a[*] ? (@ > 1)", "@.x[*] ? (@ > 1)", "@.a ? (@ == 1)", "@.a ? (@.c == 1)", "@.a[*] ? (@.v > 1)", "@ ? (@.a > 1)", "@.b ? (@ starts with \"a\")", "@.* ? (@ > 1)", "@.a ? (@ == $missing)"}
+	uses := []string{"@.b == 1", "@.y == 1", "@.b > 0", "exists(@.b)", "@.a == 1", "@ == 1", "@.size() > 0", "@.b starts with \"a\""}
+	conds := []string{}
+	for _, f := range innerFilters {
+		for _, u := range uses {
+			conds = append(conds,
+				"exists("+f+") || "+u, "exists("+f+") && "+u, "!(exists("+f+")) && "+u, "!(exists("+f+")) || "+u,
+				u+" && exists("+f+")", u+" || exists("+f+")",
+				"("+f+") > 0 || "+u, "("+f+") == 1 && "+u, "(exists("+f+")) is unknown || "+u, "((exists("+f+")) is unknown) && "+u,
+				"(exists("+f+") && "+u+") is unknown")
+		}
+	}
+	lastPaths := []string{
+		"$[$[0][last] to last]", "$[last ? (@[last] > 0)]", "$[0, $[1][last], last]", "$[$[last][0], last]", "$[last - $[0][last]]", "$[*][$[last][last], last]",
+		"$[0 to last ? (@ > 0)][last]", "$[last][last]", "$[$.size() - 1, last]", "$.a[$.b[last], last]", "$.a[last ? (@ == $.a[last])]", "$[$[0] ? (@[last] == 1)[last], last]",
+		"$[*] ? (@[last] == $[last][last])", "$[last] ? (@[last] > $[0][last])",
+	}
+	rootPaths := []string{"$.a ? (@ == $.b)", "$.a[*] ? (@ == $.b[last])", "$.a[*] ? (@ > $.a[0])", "$[*] ? (@.a == $[0].a)", "$.a ? (exists($.b ? (@ == 1)) && @ == $.b)", "$x.a ? (@ == $.a)", "$arr[*] ? (@ == $[0])", "$.*[*] ? (@ == $.a[0])"}
+	flagPaths := []string{
+		"strict $.**.a", "strict $.**.a.b", "strict $.** ? (@.a == 1)", "strict $.**{1}.a.b", "strict $.a.**.b.c", "strict $[*].**.a", "strict $.** ? (@.a.b == 1).a", "strict $.**.*", "strict $.**[*]", "strict $.**[0]",
+		"strict $[*] ? (@.**.a == 1).b", "strict $[*] ? (exists(@.**.a)).b", "strict $.a[*] ? (@.b == 1).c", "strict $[*] ? (@.a == 1).b", "strict $[*] ? (@.a == @.b).c", "strict $ ? (@.a == 1 || @.x == 0).b",
+		"$[*] ? (@.a.double() > 1).b.double()", "$[*] ? (@.n == 10 / @.d).s.double()", "strict $[*] ? (@.a > 1 && @.b > 1).c", "strict $[*] ? (!(@.a == 1)).b", "strict $[*] ? ((@.a == 1) is unknown).b",
+		"strict $[*] ? (exists(@.a)).a.b", "strict $[*] ? (@.a starts with \"a\").b", "strict $[*] ? (@.a like_regex \"a\").b", "strict $[*] ? (@.a == 1) ? (@.b == 1).c",
+		"$[*] ? (@[$i] == 1)", "$[$i]", "$[0, $i]", "$.a[$i].b", "strict $[$.x]", "strict $[*] ? (@[0] == $i)",
+	}
+	docs := []string{
+		`[{"a":1,"b":1},{"a":2,"b":2}]`, `[{"a":[1,9],"b":1}]`, `[{"x":[0,"str"],"y":1},{"x":[0,0],"y":1},{"x":[0],"y":2}]`, `[{"x":[{"v":"s","y":1}],"y":2},{"x":[{"v":3}],"y":1}]`,
+		`{"a":{"b":5},"b":1}`, `[[1,2,3],[4,5],[0]]`, `[[2,1],[1,2]]`, `{"a":[1,2,3],"b":[2,3],"i":1}`, `[{"x":0},{"a":1}]`, `[{"a":1},{"x":0}]`, `[{"a":"x"},{"a":2,"b":"y"}]`,
+		`[{"n":1,"d":0,"s":"1"},{"n":10,"d":1,"s":"oops"}]`, `[{"a":1},{"a":1,"b":1}]`, `{"x":0}`, `[[1]]`, `[1,2,3]`, `{"a":[1],"b":{"c":[2,{"a":{"b":1}}]}}`, `[{"a":{"b":1}},7,"s",[{"a":2}]]`,
+		`[{"t":{"k":1}},{"t":[2]}]`, `{"a":[1]}`, `[{"a":7,"b":"ab"},{"a":0,"b":"b"}]`, `[{"a":[{"c":1},{"c":2}],"b":1},{"a":[{"c":3}],"b":2}]`,
+	}
+	// existence-mode probes: exists() over descents and wildcards whose match sits deep and is followed by a non-matching sibling
+	existsPaths := []string{"$ ? (exists(@.**.x))", "exists($.**.x)", "$ ? (exists(@.**{2 to 3}.x))", "$ ? (exists(@.**{3}.x ? (@ > 0)))", "$ ? (exists(@.**.a))", "exists($.**.a.b)", "$[*] ? (exists(@.**.c))",
+		"$ ? (exists(@.*.a))", "$ ? (exists(@[*].a))", "exists($[*].a[*] ? (@ > 1))", "$ ? (exists(@.a[0 to 1] ? (@ == 1)))", "strict exists($[0 to 1] ? (@ == 1))", "strict $ ? (@[0] == 7 || exists(@[0,1] ? (@ == 1)))",
+		"exists($.keyvalue() ? (@.key == \"a\"))", "$ ? (exists(@.keyvalue().value ? (@ == 1)))", "exists($[0,1].a)", "exists($.**.sku ? (@ == \"A\"))", "exists($.**{3} ? (@ > 1))"}
+	docs = append(docs, `{"r":[{"k":{"x":1}},5]}`, `{"r":[5,{"k":{"x":1}}]}`, `{"orders":[{"items":[{"sku":"A"}]},{"items":[{"sku":"B"}]}]}`, `[{"a":[1,2]},{"a":[]}]`, `[{"a":1},{}]`, `{"a":1,"b":2}`, `[1,2]`, `[2,1]`,
+		`{"a":[1,0]}`, `{"a":[0,1]}`, `[[{"a":1}]]`, `[{"a":1},[{"a":2}],[[{"a":3}]],{"a":4},7,"s"]`, `{"t":[[{"a":1}]],"u":0}`)
+	flagPaths = append(flagPaths, existsPaths...)
+	for i := 0; i < 40; i++ {
+		docs = append(docs, g.docText(3, true))
+	}
+	total := (len(conds)*2 + len(lastPaths) + len(rootPaths) + len(flagPaths)) * len(docs)
+	stride := 1
+	if n > 0 && total > n {
+		stride = total / n
+	}
+	idx := g.r.Intn(stride)
+	cnt := 0
+	vars := map[string]any{"x": mustDoc(`{"a":1}`, false), "arr": mustDoc(`[1,2]`, false)}
+	emit := func(text, d string) {
+		if cnt%stride == idx%stride {
+			e.emit(caseSpec{family: "ctx", text: text, doc: mustDoc(d, false), vars: vars})
+		}
+		cnt++
+	}
+	for _, d := range docs {
+		for _, c := range conds {
+			emit("$[*] ? ("+c+")", d)
+			emit("strict $ ? ("+c+")", d)
+		}
+		for _, p := range lastPaths {
+			emit(p, d)
+		}
+		for _, p := range rootPaths {
+			emit(p, d)
+		}
+		for _, p := range flagPaths {
+			emit(p, d)
+		}
 	}
 }
